@@ -288,6 +288,7 @@ def prop_C05(ctx, tier):
               'removes exactly one victim from store and queue, and an iteration that removed nothing leaves the loop. S1: estimator impls count capacity and recurse into every component. '
               'W1: max_memory selects the memory-aware store. Not decided: numeric totals.', ASSUME_COMMON)
     K.check_memory_forms(run, ctx)
+    K.check_replacement_before_fit_test(run, ctx)
     K.check_memory_loop(run, ctx)
     S.check_estimators(run, ctx)
     S.check_victim_key_identity(run, ctx, 'C05-P2')
@@ -306,6 +307,8 @@ def prop_C01(ctx, tier):
               'inserts (key, value) - the store overwrites. W2: store statics are owned by the decorated function. Not decided: equality of values over histories.', ASSUME_COMMON)
     n = W.check_wrapper_dataflow(run, ctx)
     run.require('C01-W1', 'fixture wrappers', n, 300)
+    K.check_store_value_identity(run, ctx, 'C01-P2')
+    K.check_oversize_drops_old_entry(run, ctx, 'C01-P3')
     n2, anchors = K.check_store_overwrites(run, ctx, 'C01-P2')
     run.require('C01-P2', 'store entry points', len([a for a in anchors.values() if a]), 6)
     K.check_lookup_by_key(run, ctx)
@@ -353,6 +356,7 @@ def prop_C09(ctx, tier):
               'edge of is_ok() (async; scenario table with an is_ok oracle). S1: the four core insert_result* store only in the Ok arm and store Ok(payload.clone()).', ASSUME_COMMON)
     n, fams = W.check_wrapper_flow(run, ctx, rules=('C09',))
     run.require('C09-W1', 'Result-family fixtures', fams.get('R', 0), 30)
+    W.check_async_effect_order(run, ctx, 'C09-W2')
     S.check_result_store(run, ctx)
     return run
 
@@ -380,6 +384,8 @@ def prop_C11(ctx, tier):
     W.check_wrapper_dataflow(run, ctx, 'C11-W1')
     run.violations = [v for v in run.violations if 'invalidate_on' in v['what'] or 'check' in v['key'] or 'stale' in v['key'] or 'fresh' in v['key'] or 'refresh' in v['key']]
     K.check_store_overwrites(run, ctx, 'C11-P1')
+    K.check_store_value_identity(run, ctx, 'C11-P1')
+    K.check_oversize_drops_old_entry(run, ctx, 'C11-P2')
     return run
 
 
